@@ -28,6 +28,8 @@ fn main() {
         "c03" => vmc::props::c03(tier),
         "c10" => vmc::props::c10(tier),
         "c11" => vmc::props::c11(tier),
+        "c13" => vmc::props::c13(tier),
+        "c14" => vmc::props::c14(tier),
         "c16" => vmc::props::c16(tier),
         x if x.starts_with("dump-") => vmc::props::dump(&x[5..], tier),
         _ => usage(),
